@@ -576,7 +576,7 @@ func recordRun(rows [][]int, o distOpts, cpus, failDist, failSeq int) *concRun {
 		for k := range l.Ev {
 			e := &l.Ev[k]
 			switch e.Pt {
-			case "dm.p.send", "dm.w.recv", "dm.w.dist", "dm.w.err", "dm.w.lock":
+			case "dm.p.send", "dm.w.recv", "dm.w.dist", "dm.w.err", "dm.w.lock", "dm.w.unlock":
 				e.A, e.B = pairIndex(n, e.A, e.B), 0
 			case "dm.p.err":
 				// the row request that failed precedes the sending of this pair
